@@ -33,7 +33,7 @@ STATE_MEASURE = "distinct (graph shape class, root format, fault kind, call site
 PROBES = ["cycle_in_graph", "self_reference", "mapped_edge_followed", "nonmatching_edge_present", "remote_edge_from_remote_root",
           "file_edge_under_remote_root", "checker_ran_as_thread", "checker_never_ran", "scheduler_switched", "line_preemption",
           "host_down_during_listing", "host_healed_then_offered", "origin_deleted", "dcor_root", "s3_root", "http_root",
-          "value_from_depth_2", "keyerror_for_unavailable", "missing_identifier"]
+          "value_from_depth_2", "keyerror_for_unavailable", "missing_identifier", "remote_typed_local_path"]
 COMPONENTS = {
     "real": ["dclab core basins machinery (basins_retrieve, features_basin, _get_basin_feature_data, identifier verification, cycle cut)",
              "feat_basin.Basin/BasinProxy, HDF5Basin, HTTPBasin, S3Basin, DCORBasin, RTDC_HTTP/RTDC_S3/RTDC_DCOR/APIHandler, HTTPFile",
@@ -50,7 +50,7 @@ ASSUMPTIONS = [
 ]
 
 FEATS = [f"userdef{i}" for i in range(10)]
-FMT_OF_KIND = {"file": "hdf5", "http": "http", "s3": "s3", "dcor": "dcor"}
+FMT_OF_KIND = {"file": "hdf5", "http": "http", "s3": "s3", "dcor": "dcor", "remote_hdf5": "hdf5"}
 TRACE_FILES = ("rtdc_dataset/feat_basin.py", "rtdc_dataset/core.py", "rtdc_dataset/fmt_http.py", "rtdc_dataset/fmt_s3.py",
                "rtdc_dataset/fmt_dcor/basin.py", "rtdc_dataset/fmt_dcor/api.py", "rtdc_dataset/fmt_hdf5/basin.py")
 
@@ -106,7 +106,7 @@ def make_trace(seed, tier, idx=None):
         for _ in range(r.randint(1, min(10, 2 * N))):
             pairs.append((r.randrange(N), r.randrange(N)))
     for ei, (a, b) in enumerate(pairs[:10]):
-        kind = "file" if local_only else r.choice(["file", "file", "http", "http", "s3", "dcor"])
+        kind = "file" if local_only else r.choice(["file", "file", "http", "http", "s3", "dcor", "remote_hdf5"])
         e = {"src": a, "dst": b, "kind": kind, "name": f"e{ei}",
              "map": r.choice([None, None, None, "subset", "perm", "repeat"]), "mseed": r.randrange(1 << 20),
              "feats": r.choice([None, None, "all_dst", "some"]), "loc": r.choice(["abs", "abs", "rel", "dangling"]) if kind == "file" else "url",
@@ -204,7 +204,11 @@ class World:
                         used_maps += 1
                         if used_maps > 9:
                             continue
-                    if e["kind"] == "file":
+                    if e["kind"] == "remote_hdf5":
+                        # malformed on purpose: type "remote", but the local-file format with a local path as URL
+                        loc = str(self.path(e["dst"]))
+                        btype, bfmt = "remote", "hdf5"
+                    elif e["kind"] == "file":
                         loc = {"abs": str(self.path(e["dst"])), "rel": f"n{e['dst']}.rtdc", "dangling": f"/nonexistent-c14/n{e['dst']}.rtdc"}[e["loc"]]
                         btype, bfmt = "file", "hdf5"
                     else:
@@ -247,7 +251,7 @@ class World:
             return False
         return holder_rid.startswith(basin_rid) if mapped else holder_rid == basin_rid
 
-    def providers(self, node, fmt, feat, depth=0):
+    def providers(self, node, fmt, feat, depth=0, strict=False):
         """Acceptable (provider node, event map from `node`'s events to the provider's) for `feat`, following permitted,
         identifier-matching edges (cycles bounded by depth)."""
         out = []
@@ -260,13 +264,17 @@ class World:
                 continue
             if e["kind"] == "file" and (fmt != "hdf5" or e["loc"] == "dangling"):
                 continue
+            if e["kind"] == "remote_hdf5" and (fmt != "hdf5" or strict):
+                # a malformed definition (type and format disagree): may be ignored altogether; following it as a
+                # file basin is acceptable only where local basins are permitted
+                continue
             if e["feats"] is not None and feat not in e["feats"]:
                 continue
             m = self.edge_map(e)
             if not self.rid_ok(self.nodes[node]["rid"], self.nodes[e["dst"]]["rid"], m is not None):
                 continue
             nfmt = FMT_OF_KIND[e["kind"]] if e["kind"] != "dcor" else "http"
-            for (pn, pm, d) in self.providers(e["dst"], nfmt, feat, depth + 1):
+            for (pn, pm, d) in self.providers(e["dst"], nfmt, feat, depth + 1, strict):
                 mm = pm if m is None else pm[m.astype(int)]
                 out.append((pn, mm, d))
         return out
@@ -422,6 +430,8 @@ class World:
             mapped = e["map"] is not None
             if not self.rid_ok(self.nodes[e["src"]]["rid"], self.nodes[e["dst"]]["rid"], mapped):
                 ctx.probe("nonmatching_edge_present")
+            if e["kind"] == "remote_hdf5":
+                ctx.probe("remote_typed_local_path")
             if e["src"] == root and fmt != "hdf5":
                 ctx.probe("file_edge_under_remote_root" if e["kind"] == "file" else "remote_edge_from_remote_root")
         ctx.state_ops += 1
@@ -514,7 +524,8 @@ class World:
         if not ok:
             ctx.probe("keyerror_for_unavailable")
             # bounded liveness in the fault-free class: an acceptable provider in an acyclic, all-local-or-up world must be reachable
-            if not self.faulted and provs and not self.cyclic() and not self.deleted and not self.has_missing_rid():
+            strict_provs = self.providers(root, self.ds_fmt if self.ds_fmt != "dcor" else "http", f, strict=True)
+            if not self.faulted and strict_provs and not self.cyclic() and not self.deleted and not self.has_missing_rid():
                 ctx.violation("C14.liveness", f"feature {f} has a permitted, matching provider (dataset {provs[0][0]}) but reading raises KeyError",
                               sig={"root_fmt": self.ds_fmt})
             ctx.log("c", f"read {f} {op['how']}", "KeyError")
